@@ -16,7 +16,7 @@ import uuid
 from hypothesis import strategies as st
 
 from vlib import boot, hyp
-from vlib.harness import Recorder, Violation, canon
+from vlib.harness import Recorder, Violation, canon, cpu_limit, CpuBudgetExceeded
 from props import c01
 
 ID = "C19"
@@ -295,7 +295,13 @@ def check_bencode_value(rec, a, cls="bencode"):
     except Exception as e:  # noqa
         raise Violation(f"bencode-encode-raises:{type(e).__name__}", case, repr(e)[:300])
     rec.case("bc:" + enc.hex(), nontrivial=interesting(a), cls=cls, sample={"value": a, "encoded": repr(enc)}, sub="bencode-value")
-    out = s["bc-decode"](enc)
+    try:
+        with cpu_limit(5):
+            out = s["bc-decode"](enc)
+    except CpuBudgetExceeded:
+        v = Violation("bencode-decode-does-not-terminate", case, f"decode of {enc!r} used more than 5 s of CPU time")
+        v.expensive = True
+        raise v
     val, rest = out[0], out[1]
     if rest is not None and len(rest) != 0:
         raise Violation("bencode-rest-not-empty", case, f"{enc!r} decoded with rest {rest!r}")
@@ -320,7 +326,12 @@ def check_bencode_stream(rec, msgs):
         rec.case(f"bcs:{stream.hex()}:{cut}", nontrivial=inside, cls="bencode-stream/cut-inside" if inside else "bencode-stream/cut-at-boundary",
                  sample={"stream": repr(stream), "cut": cut} if cut == len(stream) // 2 else None, sub="bencode-stream")
         try:
-            out = s["bc-decode-all"](prefix)
+            with cpu_limit(5):
+                out = s["bc-decode-all"](prefix)
+        except CpuBudgetExceeded:
+            v = Violation("bencode-decode-all-does-not-terminate", case, f"decode-all of the prefix {prefix!r} used more than 5 s of CPU time (a complete call takes milliseconds)")
+            v.expensive = True
+            raise v
         except Exception as e:  # noqa
             raise Violation(f"bencode-decode-all-raises:{type(e).__name__}", case, f"prefix {prefix!r}: {e!r}"[:300])
         items, rest = list(out[0]), out[1]
@@ -344,7 +355,12 @@ def check_bencode_bytes(rec, data):
     rec.case("bcb:" + data.hex(), nontrivial=True, cls="bencode-bytes", sub="bencode-bytes")
     for fn in ("bc-decode", "bc-decode-kw", "bc-decode-all"):
         try:
-            out = s[fn](data)
+            with cpu_limit(5):
+                out = s[fn](data)
+        except CpuBudgetExceeded:
+            v = Violation("bencode-decode-does-not-terminate", case, f"{fn}({data!r}) used more than 5 s of CPU time")
+            v.expensive = True
+            raise v
         except RecursionError:
             continue
         except Exception as e:  # noqa
